@@ -6,6 +6,17 @@ const v2pkg = "app/core/hydra/swamp/chronicler/v2"
 
 var Checks = []CheckDef{
 	{
+		ID: "C24", Title: "Compression round-trips and never hides corruption",
+		Claim:   "bounded symbolic execution of the real compressor wrappers (Compress/Decompress and the eight per-algorithm functions, plus io.ReadAll/bytes.Buffer interpreted from source) against a contract model of the four codec libraries: for every algorithm, every input up to maxLen symbolic bytes and every position of a failing library call, a library error is always returned as a non-nil error (never (data, nil) or (nil, nil)); with no failure the round trip is the identity; a damaged frame - whose decoder delivers arbitrary bytes and reports the damage no later than the read that would have returned io.EOF, in reads of arbitrary chunking - yields an error or the original data, i.e. the wrapper always reads the stream to its end",
+		Trusted: "the codec libraries themselves are contract stubs (identity codec with a frame marker, nondeterministic failures, end-of-stream integrity check); the real libraries run in the native replay, where every single-byte damage of the real compressed form is tried. Whether real Snappy detects a corruption (its block format has no checksum) and the real round trip of long inputs are outside the claim",
+		Harnesses: []HarnessDef{
+			{Pkg: "app/core/compressor", Func: "VerifC24Wrapper", Quick: map[string]int{"maxLen": 3}, Thorough: map[string]int{"maxLen": 5}, Covers: []string{"end"}},
+		},
+		Assumptions: []string{"library contract: a streaming decoder reports a damaged frame no later than the Read that would otherwise return io.EOF; one-shot decoders report it as an error", "inputs up to maxLen bytes"},
+		Stubs:       []string{"compress/gzip, pierrec/lz4, golang/snappy, klauspost/zstd constructors, Write/Close/Read/EncodeAll/DecodeAll/Encode/Decode = harness contract stubs (h.Stub)"},
+		Outside:     []string{"the real codecs' round trip (first sentence of the property) beyond what the native replay samples", "Snappy corruption detection"},
+	},
+	{
 		ID: "C13", Title: "Structural patch matches its documented semantics",
 		Claim:   "bounded symbolic execution of the real msgpackpatch package (and of the msgpack library's decoder/encoder it calls, interpreted from source): (a) a condition on a numeric field against a numeric threshold, for every pair of the 10 numeric type codes + fixints with fully symbolic payloads and every comparator, is met exactly when the mathematical relation holds (NaN equal to nothing, unordered), a class mismatch is an error, a met condition without ops returns the body byte-identically; (b) INC for every (target code, delta code) pair with symbolic payloads keeps the target's type code and class, yields the sum wrapped to that width, keeps field order and the bytes of the untouched field; (c) every op kind that splices a value (SET existing/new/index, APPEND, PREPEND, MERGE, REMOVE_VAL, INC) with ARBITRARY value bytes of length 0..maxValue: a reported success always re-parses, a failure returns no result; (d) every sequence of nOps ops out of 24 (kind, path) combinations - existing, missing, auto-create, negative/out-of-range index, type-mismatch paths - with symbolic leaf values and symbolic MERGE keys on {a:x, l:[y,z], m:{k:w}} yields byte for byte the encoding of a reference document model written from the documented semantics (untouched bytes and field order kept) and fails as a whole exactly when the model says an op fails",
 		Trusted: "msgpack decoder/encoder are interpreted from the library source except its unsafe string casts (intrinsics); allocation sizes above 16 elements are one class in the arbitrary-bytes harness (the input is shorter than that, so every such read fails alike)",
